@@ -2,6 +2,7 @@ package harness
 
 import (
 	"fmt"
+	"math"
 	"sort"
 	"strings"
 
@@ -170,7 +171,7 @@ func sliceOps() []sliceOp {
 		return fmt.Sprint(s.Filter(even)), fmt.Sprint(w), ""
 	})
 	for _, start := range []int{-1, 0, 1, 100} {
-		for _, del := range []int{-1, 0, 1, 100} {
+		for _, del := range []int{-1, 0, 1, 100, math.MaxInt} {
 			for _, ins := range [][]int{{}, {7}, {8, 9}} {
 				start, del, ins := start, del, ins
 				add(fmt.Sprintf("Splice(%d,%d,%v)", start, del, ins), func(s *types.Slice[int], m *[]int) (string, string, string) {
